@@ -107,8 +107,8 @@ func runC11(c *fw.Ctx) {
 		}
 		r := c.Rng(id)
 		cs := genCase(r, st.cfg)
-		if r.Chance(1, 3) {
-			addMetaOrigin(cs, r.Intn(8))
+		for m := r.Intn(5) - 2; m > 0; m-- {
+			addMetaOrigin(cs, r.Intn(9))
 		}
 		txt := gen.PrintCanonical(cs.Script).Text
 		po := real.Parse(txt)
